@@ -108,7 +108,7 @@ def finish {α : Type} (gt : String) (gd : GData α) (rows : List (Row α))
       .ok ({ coords := coords, double := dbl, commonZ := cz, indexList := none, numAnn := gd.length }, ct)
 
 /-- `AnnotationGroup.__init__`, graphic data part.  `finite`: numpy's `isfinite` on a cell;
-`isDouble`: the concatenated array has dtype float64; `cast`: the documented cast applied to the
+`isDouble`: the concatenated array has dtype float64; `cast`: the constructor's cast (float32 for integers, exact below 2^24) applied to the
 cells (float32 for integer input, identity otherwise). -/
 def encode {α : Type} [DecidableEq α] (gt : String) (finite : α → Bool) (isDouble : Bool) (cast : α → α)
     (gd : GData α) : Except ErrKind (Enc α × Int) :=
@@ -141,7 +141,7 @@ def construct {α : Type} [DecidableEq α] (gt : String) (finite : α → Bool) 
   | .ok (enc, ct) => .ok { gtype := gt, enc := enc, cache := some (ct, gd) }
 
 /-- the constructor with the dtype of the concatenated array made explicit: numpy `kind` letter and item size;
-`toF32` is the cast to single precision (the documented cast of integers; lossless widening of half precision) -/
+`toF32` is the cast to single precision (the constructor's cast of integers, lossy from 2^24; lossless widening of half precision) -/
 def constructDT {α : Type} [DecidableEq α] (gt : String) (finite : α → Bool) (kind : String) (itemsize : Int)
     (toF32 : α → α) (gd : GData α) : Except ErrKind (Group α) :=
   match dtypePlan kind itemsize with
